@@ -6,10 +6,10 @@ import (
 	"fmt"
 	"io"
 	"os"
-	"syscall"
 	"path/filepath"
 	"sort"
 	"strings"
+	"syscall"
 	"time"
 
 	"verif.local/sim/rt"
@@ -41,39 +41,40 @@ type simNode struct {
 	dir   string // directory the next incarnation starts from
 	wiped int
 	// what the node had acknowledged, across incarnations (C05/C10)
-	maxTermSeen uint64
-	ackedIndex  uint64 // highest log index acknowledged as stored by the incarnation that crashed last
-	ackedTerm   uint64
+	maxTermSeen   uint64
+	ackedIndex    uint64 // highest log index acknowledged as stored by the incarnation that crashed last
+	ackedTerm     uint64
+	ackedMaxEver  uint64 // highest index any incarnation of this node ever acknowledged
 	lastCrashAtIO bool
 }
 
 type nodeInc struct {
-	run      *simRun
-	node     *simNode
-	n        int
-	nc       *rt.NodeCtx
-	r        *Raft
-	fsm      *recFSM
-	dir      string
-	mainG    *rt.G
-	listener *simnet.Listener
-	newErr   error
-	serveErr error
-	exited   bool
-	dead     bool // crashed (fenced) — a zombie from now on
-	stopping bool // Shutdown requested by the harness
-	tasks    []*taskRec
-	obs      incObs
-	acked, ackedTerm uint64 // highest (index,term) this incarnation acknowledged as stored and still holds
-	ackedMax         uint64 // highest index this incarnation ever acknowledged (never lowered)
-	pendPrev, pendN  uint64 // append request in progress
-	gone      chan struct{} // closed when the incarnation's main goroutine has returned
-	diskErrs  int // disk errors injected into this incarnation
-	obsBroken bool
-	intruder  *Raft // a second instance currently attempting to serve this directory (C20)
-	crashAtIO int // >0: crash when this many more I/O calls were made by this incarnation
-	ioCount   int
-	startedAt int64
+	run              *simRun
+	node             *simNode
+	n                int
+	nc               *rt.NodeCtx
+	r                *Raft
+	fsm              *recFSM
+	dir              string
+	mainG            *rt.G
+	listener         *simnet.Listener
+	newErr           error
+	serveErr         error
+	exited           bool
+	dead             bool // crashed (fenced) — a zombie from now on
+	stopping         bool // Shutdown requested by the harness
+	tasks            []*taskRec
+	obs              incObs
+	acked, ackedTerm uint64        // highest (index,term) this incarnation acknowledged as stored and still holds
+	ackedMax         uint64        // highest index this incarnation ever acknowledged (never lowered)
+	pendPrev, pendN  uint64        // append request in progress
+	gone             chan struct{} // closed when the incarnation's main goroutine has returned
+	diskErrs         int           // disk errors injected into this incarnation
+	obsBroken        bool
+	intruder         *Raft // a second instance currently attempting to serve this directory (C20)
+	crashAtIO        int   // >0: crash when this many more I/O calls were made by this incarnation
+	ioCount          int
+	startedAt        int64
 }
 
 func (ni *nodeInc) String() string { return fmt.Sprintf("n%d.%d", ni.node.id, ni.n) }
@@ -123,38 +124,38 @@ func (ni *nodeInc) idle() bool {
 }
 
 type simRun struct {
-	seed    uint64
-	prof    profile
-	cfg     runConfig
-	sim     *rt.Sim
-	tape    *rt.Tape
-	net     *simnet.Network
-	nodes   []*simNode
-	baseDir string
-	raftOf  map[*Raft]*nodeInc
-	phase   string
-	stop    bool
-	viol    *violation
-	infra   string
-	decoys  []*simNode
-	clients []*client
-	nextCmd uint64
-	ops     []*opRec
-	links   map[[2]int]bool // blocked directed links
+	seed           uint64
+	prof           profile
+	cfg            runConfig
+	sim            *rt.Sim
+	tape           *rt.Tape
+	net            *simnet.Network
+	nodes          []*simNode
+	baseDir        string
+	raftOf         map[*Raft]*nodeInc
+	phase          string
+	stop           bool
+	viol           *violation
+	infra          string
+	decoys         []*simNode
+	clients        []*client
+	nextCmd        uint64
+	ops            []*opRec
+	links          map[[2]int]bool // blocked directed links
 	mainSelectSite uint32
 
 	led ledgers
 	st  runStats
 
-	c06Every int
-	c06Seq   int
-	digests map[uint64]struct{}
+	c06Every   int
+	c06Seq     int
+	digests    map[uint64]struct{}
 	lastDigest uint64
-	histStats [3]int
-	target    string // property the check is deciding ("": stop at the first violation of any)
-	incid     []*violation
-	dbgOn bool
-	dbgF  func(string)
+	histStats  [3]int
+	target     string // property the check is deciding ("": stop at the first violation of any)
+	incid      []*violation
+	dbgOn      bool
+	dbgF       func(string)
 
 	shutdownAt  int64
 	healedAt    int64
@@ -169,7 +170,7 @@ type runStats struct {
 	Reach  map[string]int `json:"reach"`
 }
 
-func (run *simRun) fault(kind string) { run.st.Faults[kind]++ }
+func (run *simRun) fault(kind string)  { run.st.Faults[kind]++ }
 func (run *simRun) reach(probe string) { run.st.Reach[probe]++ }
 
 func (run *simRun) violate(prop, oracle, sig, format string, a ...interface{}) {
@@ -279,6 +280,7 @@ func newSimRun(seed uint64, prof profile, tape *rt.Tape, quiesce func()) *simRun
 	run.sim = rt.NewSim(tape, quiesce)
 	run.sim.StepCost = int64(run.cfg.StepCost)
 	run.sim.ContNum, run.sim.ContDen = run.cfg.ContNum, run.cfg.ContNum+1
+	run.sim.LagEvery, run.sim.LagSkipNum, run.sim.LagSkipDen = run.cfg.LagEvery, 7, 8
 	run.sim.SiteName = func(s uint32) string {
 		if si, ok := simSites[s]; ok {
 			return fmt.Sprintf("%s:%d(%s %s)", si.File, si.Line, si.Kind, si.Func)
@@ -907,6 +909,10 @@ func (run *simRun) heal() {
 	}
 	run.healedAt = run.sim.Now
 	run.sim.FairBound = 2000
+	if run.sim.Lags > 0 {
+		run.st.Faults["laggard_goroutines"] += run.sim.Lags
+	}
+	run.sim.LagEvery = 0 // fair scheduling from here on
 	run.led.onHeal()
 	run.sim.After(int64(run.cfg.HB), "settle-check", run.settleCheck)
 }
